@@ -342,6 +342,8 @@ def check_parity(ctx, leaves):
 
 
 def check(ctx):
+    from .ctors import check_table
+    check_table(ctx, "C01", "R01.8")
     F = ctx.F
     fx, leaves, problems = PL.analyse(ctx)
     for kind, msg, at in problems:
